@@ -21,6 +21,7 @@ class Obligation:
         self.model = None
         self.seconds = 0.0
         self.note = ""
+        self.weak = False
 
 
 class Contract:
@@ -114,6 +115,9 @@ class BaseSpec:
 
     def ext_override(self, I, dotted, args, kwargs, star):
         return _MISSING
+
+    def ext_value(self, I, dotted):
+        return None
 
     def ext_call(self, I, dotted, args, kwargs, star):
         parts = dotted.split(".")
@@ -262,6 +266,8 @@ def run_function(spec, label, body, max_paths=5000):
     try:
         info["paths"] = enumerate_paths(run, max_paths)
     except OutsideSubset as e:
+        if os.environ.get("PYVC_DEBUG"):
+            traceback.print_exc()
         info["error"] = f"OUTSIDE-SUBSET: {e}"
         spec.undecided.append((label, info["error"]))
     except RecursionError as e:
@@ -299,13 +305,29 @@ def discharge(ob, timeout_ms=10000, want_model=True):
         ob.status, ob.backend = "refuted", "z3"
         ob.model = s.model()
     else:
-        # second opinion: cvc5 on the SMT-LIB dump
-        res = _cvc5(s)
-        if res == "unsat":
-            ob.status, ob.backend = "discharged", "cvc5"
+        # (2) quantifier-free hypotheses only: unsat is still a proof (fewer hypotheses); sat is only a
+        #     *candidate* counter-model (it may violate a dropped hypothesis) - flagged weak, needs a native replay
+        s2 = z3.Solver()
+        s2.set("timeout", timeout_ms)
+        for p in ob.pc:
+            if not state.has_quantifier(p):
+                s2.add(p)
+        s2.add(z3.Not(ob.goal))
+        r2 = s2.check()
+        if r2 == z3.unsat:
+            ob.status, ob.backend = "discharged", "z3"
+        elif r2 == z3.sat:
+            ob.status, ob.backend = "refuted", "z3(candidate, quantified hypotheses dropped)"
+            ob.model = s2.model()
+            ob.weak = True
         else:
-            ob.status, ob.backend = "undecided", "z3+cvc5"
-            ob.note = f"z3: {s.reason_unknown()}; cvc5: {res}"
+            # (3) second opinion: cvc5 on the SMT-LIB dump
+            res = _cvc5(s)
+            if res == "unsat":
+                ob.status, ob.backend = "discharged", "cvc5"
+            else:
+                ob.status, ob.backend = "undecided", "z3+cvc5"
+                ob.note = f"z3: {s.reason_unknown()}; cvc5: {res}"
         ob.seconds = time.time() - t
     return ob
 
@@ -317,7 +339,7 @@ def _cvc5(solver, timeout_s=20):
             fh.write("(set-logic ALL)\n" + smt)
             path = fh.name
         try:
-            out = subprocess.run(["/usr/bin/cvc5", "--strings-exp", f"--tlimit={timeout_s * 1000}", path],
+            out = subprocess.run(["/usr/bin/cvc5", "--strings-exp", "--dt-nested-rec", f"--tlimit={timeout_s * 1000}", path],
                                  capture_output=True, text=True, timeout=timeout_s + 5)
             first = (out.stdout.strip().splitlines() or ["error"])[0]
             return first if first in ("sat", "unsat", "unknown") else "error:" + (out.stderr.strip()[:120] or first)
@@ -332,3 +354,66 @@ def discharge_all(spec, timeout_ms=10000):
         if ob.status is None:
             discharge(ob, timeout_ms)
     return spec.obligations
+
+
+# ------------------------------------------------------------------------------------------------
+# parallel execution: each task builds its own spec fragment in a forked worker, discharges there and
+# returns plain records (z3 terms never cross process boundaries)
+# ------------------------------------------------------------------------------------------------
+class ObRec:
+    def __init__(self, ob, model_summary):
+        self.name = ob.name
+        self.status = ob.status
+        self.backend = ob.backend
+        self.seconds = ob.seconds
+        self.note = ob.note
+        self.weak = getattr(ob, "weak", False)
+        self.meta = {k: v for k, v in (ob.meta or {}).items() if isinstance(v, (str, int, float, bool, list, dict, type(None)))}
+        self.goal = str(ob.goal)[:600]
+        self.pc = [None] * len(ob.pc)
+        self.model = model_summary
+
+
+_TASKS = {}
+
+
+def _worker(args):
+    idx, timeout_ms = args
+    factory, task = _TASKS["factory"], _TASKS["tasks"][idx]
+    from . import report as _r
+    spec = factory()
+    t0 = time.time()
+    try:
+        task(spec)
+        discharge_all(spec, timeout_ms)
+        recs = [ObRec(ob, _r.model_summary(ob) if ob.status == "refuted" else None) for ob in spec.obligations]
+        err = None
+    except Exception:
+        recs, err = [], traceback.format_exc()
+    return {"obligations": recs, "undecided": list(spec.undecided), "paths": spec.path_count,
+            "functions": dict(spec.functions), "used_contracts": set(spec.used_contracts),
+            "assumptions": set(spec.assumptions) | set(models.USED_ASSUMPTIONS), "error": err,
+            "queries": state.STATS.queries, "solver_s": state.STATS.seconds, "wall": time.time() - t0}
+
+
+def run_parallel(spec, factory, tasks, nproc=None, timeout_ms=10000):
+    """tasks: list of callables task(spec).  Results are merged into `spec` (records instead of z3 obligations)."""
+    import multiprocessing as mp
+    nproc = nproc or min(16, max(1, len(tasks)))
+    ctx = mp.get_context("fork")
+    _TASKS["factory"], _TASKS["tasks"] = factory, list(tasks)   # inherited by the forked workers
+    with ctx.Pool(nproc) as pool:
+        results = pool.map(_worker, [(i, timeout_ms) for i in range(len(tasks))], chunksize=1)
+    faults = []
+    for r in results:
+        spec.obligations.extend(r["obligations"])
+        spec.undecided.extend(r["undecided"])
+        spec.path_count += r["paths"]
+        spec.functions.update(r["functions"])
+        spec.used_contracts |= r["used_contracts"]
+        spec.assumptions |= r["assumptions"]
+        state.STATS.queries += r["queries"]
+        state.STATS.seconds += r["solver_s"]
+        if r["error"]:
+            faults.append(r["error"])
+    return faults
